@@ -6,51 +6,66 @@ From V.Mgr Require Import DialShape Model.
 Import ListNotations.
 Open Scope N_scope.
 
+(* transports on the wire: 0 = TCP, 1 = WebSocket *)
+Definition p_tr : parser tr := let* t := pN in if t <? 2 then pret t else pfail.
+Definition p_trs : parser (list tr) := V.C10.Glue.plistb 3 p_tr.
+
 Definition p_ev : parser ev :=
   let* tag := pN in
   match tag with
-  | 0 => let* p := pN in let* f := pBool in pret (CmdDialPeer p f)
-  | 1 => let* p := pN in let* f := pBool in pret (CmdDialAddr p f)
-  | 2 => let* p := pN in pret (CmdAddAddr p)
-  | 3 => let* c := pN in let* p := pN in pret (TrDialFailure c p)
-  | 4 => let* c := pN in let* f := pBool in pret (TrOpened c f)
-  | 5 => let* c := pN in let* p := pN in pret (TrOpenFailure c p)
-  | 6 => let* p := pN in let* c := pN in let* l := pBool in let* f := pBool in pret (TrEstablished p c l f)
-  | 7 => let* c := pN in pret (TrPendingInbound c)
+  | 0 => let* p := pN in let* ts := p_trs in let* fl := p_trs in pret (CmdDialPeer p ts fl)
+  | 1 => let* p := pN in let* t := p_tr in let* f := pBool in pret (CmdDialAddr p t f)
+  | 2 => let* p := pN in let* t := p_tr in pret (CmdAddAddr p t)
+  | 3 => let* c := pN in let* t := p_tr in let* p := pN in pret (TrDialFailure c t p)
+  | 4 => let* c := pN in let* t := p_tr in let* f := pBool in pret (TrOpened c t f)
+  | 5 => let* c := pN in let* t := p_tr in let* p := pN in pret (TrOpenFailure c t p)
+  | 6 => let* p := pN in let* c := pN in let* t := p_tr in let* l := pBool in let* f := pBool in
+         pret (TrEstablished p c t l f)
+  | 7 => let* c := pN in let* t := p_tr in pret (TrPendingInbound c t)
   | 8 => let* c := pN in let* ok := pBool in pret (AcceptDone c ok)
   | 9 => let* p := pN in let* c := pN in pret (Closed p c)
   | 10 => pret AllocConn
   | 11 => let* a := V.C10.Glue.p_maddr in pret (CmdDialShape a)
+  | 12 => let* p := pN in let* ts := p_trs in let* fl := p_trs in pret (HDialPeer p ts fl false)
+  | 13 => let* a := V.C10.Glue.p_maddr in pret (HDialAddr a false)
   | _ => pfail
   end.
 
+(* installed transports as a bitmask: 1 = TCP, 2 = WebSocket *)
+Definition inst_of_mask (k : N) : list tr :=
+  (if N.testbit k 0 then [TCP] else []) ++ (if N.testbit k 1 then [WS] else []).
+
 Definition decode_case (l : list N) : option (limits * list ev) :=
-  pall (let* mi := pN in let* mo := pN in let* es := plist p_ev in
-        pret (mkLimits (dec_opt mi) (dec_opt mo), es)) l.
+  pall (let* mi := pN in let* mo := pN in let* k := pN in let* es := plist p_ev in
+        if k <? 4 then pret (mkLimits (dec_opt mi) (dec_opt mo) (inst_of_mask k), es) else pfail) l.
 
 (* ---- outputs: grouped by channel (calls, protocol notifications, manager events, return code,
-        stuck), each group in emission order ---- *)
+        stuck). Calls: what each transport saw, in its order (transport 0 first, then 1): the
+        relative order of calls on different transports is not observable ---- *)
 Definition enc_call (o : out) : list N :=
   match o with
-  | CallOpen c => [1; c] | CallDial c => [2; c] | CallNegotiate c => [3; c] | CallCancel c => [4; c]
-  | CallAccept c => [5; c] | CallReject c => [6; c] | CallAcceptPending c => [7; c]
-  | CallRejectPending c => [8; c]
+  | CallOpen c t => [1; c; t] | CallDial c t => [2; c; t] | CallNegotiate c t => [3; c; t]
+  | CallCancel c t => [4; c; t]
+  | CallAccept c t => [5; c; t] | CallReject c t => [6; c; t] | CallAcceptPending c t => [7; c; t]
+  | CallRejectPending c t => [8; c; t]
   | _ => []
   end.
-Definition is_call (o : out) : bool :=
+Definition call_tr (o : out) : option tr :=
   match o with
-  | CallOpen _ | CallDial _ | CallNegotiate _ | CallCancel _ | CallAccept _ | CallReject _
-  | CallAcceptPending _ | CallRejectPending _ => true
-  | _ => false
+  | CallOpen _ t | CallDial _ t | CallNegotiate _ t | CallCancel _ t | CallAccept _ t | CallReject _ t
+  | CallAcceptPending _ t | CallRejectPending _ t => Some t
+  | _ => None
   end.
+Definition is_call_on (t : tr) (o : out) : bool :=
+  match call_tr o with Some u => u =? t | None => false end.
 Definition is_proto (o : out) : bool := match o with ProtoDialFailure _ => true | _ => false end.
 Definition is_mev (o : out) : bool :=
-  match o with EvEstablished _ _ | EvClosed _ _ | EvDialFailure _ _ | EvOpenFailure _ => true | _ => false end.
+  match o with EvEstablished _ _ | EvClosed _ _ | EvDialFailure _ _ | EvOpenFailure _ _ => true | _ => false end.
 Definition enc_proto (o : out) : list N := match o with ProtoDialFailure p => [p] | _ => [] end.
 Definition enc_mev (o : out) : list N :=
   match o with
   | EvEstablished p c => [1; p; c] | EvClosed p c => [2; p; c]
-  | EvDialFailure c p => [3; c; p] | EvOpenFailure c => [4; c; 0]
+  | EvDialFailure c p => [3; c; p] | EvOpenFailure c n => [4; c; n]
   | _ => []
   end.
 Definition ret_of (os : list out) : N :=
@@ -59,30 +74,40 @@ Definition stuck_of (os : list out) : N :=
   fold_right (fun o acc => match o with Stuck s => s | _ => acc end) 0 os.
 
 Definition enc_outs (os : list out) : list N :=
-  enc_list enc_call (filter is_call os) ++ enc_list enc_proto (filter is_proto os) ++
+  enc_list enc_call (filter (is_call_on TCP) os ++ filter (is_call_on WS) os) ++
+  enc_list enc_proto (filter is_proto os) ++
   enc_list enc_mev (filter is_mev os) ++ [ret_of os; if stuck_of os =? 0 then 0 else 1].
+
+Definition tr_mask (ts : list tr) : N :=
+  (if mem TCP ts then 1 else 0) + (if mem WS ts then 2 else 0).
 
 Definition enc_pstate (s : pstate) : list N :=
   match s with
   | Disconnected None => [0; 0; 0]
   | Disconnected (Some c) => [1; c; 0]
   | Dialing c => [2; c; 0]
-  | Opening c => [3; c; 0]
+  | Opening c ts => [3; c; tr_mask ts]
   | Connected c None => [4; c; 0]
   | Connected c (Some (SecEst d)) => [5; c; d]
   | Connected c (Some (SecDial d)) => [6; c; d]
   end.
 Definition is_default (s : pstate) : bool := match s with Disconnected None => true | _ => false end.
 
+Definition count_kind (t : tr) (l : list maddr) : N :=
+  N.of_nat (length (filter (fun a => kind_of a =? t) l)).
+
 Definition dump (m : mgr) : list N :=
   enc_list (fun kp : N * pstate => fst kp :: enc_pstate (snd kp))
            (sort_by fst (filter (fun kp => negb (is_default (snd kp)))
                                 (fold_right (fun kp acc => if existsb (fun q : N * pstate => fst q =? fst kp) acc then acc else acc ++ [kp])
                                             [] (rev (peers m))))) ++
-  enc_list (fun k => [k]) (sort_by (fun k => k) (known m)) ++
+  (* the address book: per peer the number of stored addresses routed to TCP / to WebSocket *)
+  enc_list (fun kl : N * list maddr => [fst kl; count_kind TCP (snd kl); count_kind WS (snd kl)])
+           (sort_by fst (filter (fun kl : N * list maddr => negb (is_nil (snd kl))) (known m))) ++
   enc_list (fun cp : N * N => [fst cp; snd cp]) (sort_by fst (pending m)) ++
   enc_list (fun k => [k]) (sort_by (fun k => k) (ins m)) ++
-  enc_list (fun k => [k]) (sort_by (fun k => k) (outs m)).
+  enc_list (fun k => [k]) (sort_by (fun k => k) (outs m)) ++
+  enc_list (fun cn : N * N => [fst cn; snd cn]) (sort_by fst (oerrs m)).
 
 Fixpoint run_trace (L : limits) (m : mgr) (es : list ev) : list N :=
   match es with
@@ -102,20 +127,27 @@ Definition run_case (l : list N) : list N :=
 
 (* ---- trace decoding for the oracles ---- *)
 Record obs := mkObs {
-  o_calls : list (N * N); o_protos : list N; o_mevs : list (N * (N * N)); o_ret : N; o_stuck : N;
-  o_states : list (N * (N * (N * N))); o_known : list N; o_pending : list (N * N);
-  o_ins : list N; o_outs : list N
+  o_calls : list (N * (N * N));          (* (kind, (conn, transport)) *)
+  o_protos : list N; o_mevs : list (N * (N * N)); o_ret : N; o_stuck : N;
+  o_states : list (N * (N * (N * N)));
+  o_known : list (N * (N * N));          (* peer -> (#tcp addresses, #ws addresses) *)
+  o_pending : list (N * N);
+  o_ins : list N; o_outs : list N;
+  o_oerrs : list (N * N)
 }.
+Definition obs0 : obs := mkObs [] [] [] 0 0 [] [] [] [] [] [].
+
 Definition p_obs : parser obs :=
-  let* calls := plist (let* t := pN in let* c := pN in pret (t, c)) in
+  let* calls := plist (let* k := pN in let* c := pN in let* t := pN in pret (k, (c, t))) in
   let* protos := plist pN in
   let* mevs := plist (let* t := pN in let* a := pN in let* b := pN in pret (t, (a, b))) in
   let* r := pN in let* st := pN in
   let* states := plist (let* p := pN in let* t := pN in let* a := pN in let* b := pN in pret (p, (t, (a, b)))) in
-  let* kn := plist pN in
+  let* kn := plist (let* p := pN in let* a := pN in let* b := pN in pret (p, (a, b))) in
   let* pend := plist (let* c := pN in let* p := pN in pret (c, p)) in
   let* i := plist pN in let* o := plist pN in
-  pret (mkObs calls protos mevs r st states kn pend i o).
+  let* oe := plist (let* c := pN in let* n := pN in pret (c, n)) in
+  pret (mkObs calls protos mevs r st states kn pend i o oe).
 
 Fixpoint p_trace (n : nat) : parser (list obs) :=
   match n with
@@ -126,8 +158,8 @@ Fixpoint p_trace (n : nat) : parser (list obs) :=
                     end
   end.
 
-Definition has_call (t c : N) (o : obs) : bool :=
-  existsb (fun x : N * N => (fst x =? t) && (snd x =? c)) (o_calls o).
+Definition has_call (k c : N) (o : obs) : bool :=
+  existsb (fun x : N * (N * N) => (fst x =? k) && (fst (snd x) =? c)) (o_calls o).
 Definition state_tag (o : obs) (p : N) : N :=
   match lookup p (o_states o) with Some (t, _) => t | None => 0 end.
 
@@ -137,6 +169,14 @@ Definition est_view (o : obs) (p : N) : list N :=
   | Some (4, (a, _)) | Some (6, (a, _)) => [a]
   | Some (5, (a, b)) => [a; b]
   | _ => []
+  end.
+
+(* events of a transport that is not installed cannot happen *)
+Definition ev_live (L : limits) (e : ev) : bool :=
+  match e with
+  | TrDialFailure _ t _ | TrOpened _ t _ | TrOpenFailure _ t _ | TrEstablished _ _ t _ _
+  | TrPendingInbound _ t => installed L t
+  | _ => true
   end.
 
 (* ================= C06 oracle =================
@@ -152,7 +192,7 @@ Definition count_dir (d : bool) (l : live_t) : N :=
 
 Definition live_step (e : ev) (o : obs) (l : live_t) : live_t :=
   match e with
-  | TrEstablished p c lst f =>
+  | TrEstablished p c _ lst f =>
       if has_call 5 c o && negb f then insert_key c (p, lst) l else l
   | AcceptDone c ok => if ok then l else remove_key c l
   | Closed p c => remove_key c l
@@ -168,8 +208,12 @@ Definition c06_step_ok (L : limits) (prev : option obs) (e : ev) (o : obs) (l l'
   under (max_in L) (count_dir true l') && under (max_out L) (count_dir false l') &&
   (* the counted sets never exceed the maxima either *)
   under (max_in L) (N.of_nat (length (o_ins o))) && under (max_out L) (N.of_nat (length (o_outs o))) &&
+  (* no leaked capacity (C06_counted_are_live on the implementation's own dump): every counted id
+     is an established connection of the ledger, of the right direction *)
+  forallb (fun c => match lookup c l' with Some (_, lst) => lst | None => false end) (o_ins o) &&
+  forallb (fun c => match lookup c l' with Some (_, lst) => negb lst | None => false end) (o_outs o) &&
   match e with
-  | TrEstablished p c lst f =>
+  | TrEstablished p c t lst f =>
       (* capacity really is available: a peer without connection is accepted below the limit *)
       if (count_peer p l =? 0) && strictly_under (if lst then max_in L else max_out L) (count_dir lst l)
          && (match prev with Some po => state_tag po p =? 0 | None => true end)
@@ -184,7 +228,7 @@ Definition c06_step_ok (L : limits) (prev : option obs) (e : ev) (o : obs) (l l'
   end &&
   (* a rejected surplus connection leaves the established ones untouched *)
   match e with
-  | TrEstablished p c lst f =>
+  | TrEstablished p c t lst f =>
       if has_call 6 c o then
         match prev with
         | Some po => nlist_eqb (est_view po p) (est_view o p) || negb (existsb (fun x : N * (N * bool) => fst (snd x) =? p) l)
@@ -198,9 +242,10 @@ Definition c06_step_ok (L : limits) (prev : option obs) (e : ev) (o : obs) (l l'
    unique. The ids of inbound connections were drawn from the shared counter (AllocConn) and are
    used once; the id of an outbound connection is one the manager dialled for that very peer.
    After the first event that breaks this, nothing more is judged. *)
-Definition c06_feasible (prev : option obs) (e : ev) (alloc : list N) (l : live_t) (accs : list N) : bool :=
+Definition c06_feasible (L : limits) (prev : option obs) (e : ev) (alloc : list N) (l : live_t) (accs : list N) : bool :=
+  ev_live L e &&
   match e with
-  | TrEstablished p c lst _ =>
+  | TrEstablished p c _ lst _ =>
       negb (existsb (fun x : N * (N * bool) => fst x =? c) l) &&
       if lst then mem c alloc
       else match prev with
@@ -217,14 +262,14 @@ Fixpoint c06_ok (L : limits) (prev : option obs) (es : list ev) (tr : list obs) 
   match es, tr with
   | _, [] => true
   | e :: es', o :: tr' =>
-      if c06_feasible prev e alloc l accs then
+      if c06_feasible L prev e alloc l accs then
         let l' := live_step e o l in
         let alloc' := match e with
                       | AllocConn => if 101 <=? o_ret o then (o_ret o - 101) :: alloc else alloc
-                      | TrEstablished _ c true _ => filter (fun y => negb (y =? c)) alloc
+                      | TrEstablished _ c _ true _ => filter (fun y => negb (y =? c)) alloc
                       | _ => alloc end in
         let accs' := match e with
-                     | TrEstablished _ c _ f => if has_call 5 c o && negb f then c :: accs else accs
+                     | TrEstablished _ c _ _ f => if has_call 5 c o && negb f then c :: accs else accs
                      | AcceptDone c _ => filter (fun y => negb (y =? c)) accs
                      | _ => accs end in
         c06_step_ok L prev e o l l' && c06_ok L (Some o) es' tr' l' alloc' accs'
@@ -234,81 +279,123 @@ Fixpoint c06_ok (L : limits) (prev : option obs) (es : list ev) (tr : list obs) 
 
 (* ================= C05 oracle =================
    attempts: a dial request accepted by the manager = a step returning Ok in which open(c)/dial(c)
-   was called. terminal outputs naming c: ConnectionEstablished(_, c) / DialFailure(c) / OpenFailure(c).
-   owed: what the transport still has to answer (open -> Opened|OpenFailure unless cancelled;
-   negotiate/dial -> Established|DialFailure; accept -> AcceptDone). *)
+   was called (on one or several transports). terminal outputs naming c:
+   ConnectionEstablished(_, c) / DialFailure(c) / OpenFailure(c).
+   owed: what the transports still have to answer (open on transport t -> Opened|OpenFailure from t
+   unless cancelled on t; negotiate/dial -> Established|DialFailure; accept -> AcceptDone). *)
 Record led := mkLed {
   attempts : list (N * N);     (* conn -> peer dialled *)
   terminals : list N;          (* conns named by a terminal output, with multiplicity *)
-  owed_open : list N; owed_neg : list N; owed_acc : list N;
+  owed_open : list (N * N);    (* (conn, transport) *)
+  owed_neg : list N; owed_acc : list N;
   superseded : list N;         (* attempts cancelled because another connection to the peer won *)
   reported : list N;           (* peers for which a ConnectionEstablished was emitted *)
   limit_rejected : list N;     (* outbound attempts rejected by the connection limit when established *)
-  allocated : list N           (* ids drawn by transports for inbound sockets, not yet used by an established connection *)
+  allocated : list N;          (* ids drawn by transports for inbound sockets, not yet used by an established connection *)
+  silent_known : list N;       (* requests the handle accepted (Ok) and the manager then refused for the
+                                  connection limit / an address check: known finding class 2 *)
+  silent_bad : list N;         (* requests the handle accepted that led to nothing for no such reason *)
+  fail_log : list N            (* connection ids of the OpenFailure events so far (one failed address each) *)
 }.
-Definition led0 := mkLed [] [] [] [] [] [] [] [] [].
+Definition led0 := mkLed [] [] [] [] [] [] [] [] [] [] [] [].
 
-Definition calls_of (t : N) (o : obs) : list N :=
-  map snd (filter (fun x : N * N => fst x =? t) (o_calls o)).
+Definition calls_of (k : N) (o : obs) : list N :=
+  map (fun x : N * (N * N) => fst (snd x)) (filter (fun x : N * (N * N) => fst x =? k) (o_calls o)).
+Definition call_pairs (k : N) (o : obs) : list (N * N) :=
+  map snd (filter (fun x : N * (N * N) => fst x =? k) (o_calls o)).
 Definition removes (xs : list N) (l : list N) : list N := filter (fun y => negb (mem y xs)) l.
+Definition pair_eqb (a b : N * N) : bool := (fst a =? fst b) && (snd a =? snd b).
+Definition mem_pair (x : N * N) (l : list (N * N)) : bool := existsb (pair_eqb x) l.
+Definition removes_pairs (xs l : list (N * N)) : list (N * N) := filter (fun y => negb (mem_pair y xs)) l.
+Fixpoint dedup (l : list N) : list N :=
+  match l with [] => [] | x :: t => if mem x t then dedup t else x :: dedup t end.
 
-Definition led_step (e : ev) (o : obs) (g : led) : led :=
+Definition pobs (prev : option obs) : obs := match prev with Some o => o | None => obs0 end.
+
+(* the peer a dial request names *)
+Definition shape_target (L : limits) (a : maddr) : option N :=
+  match dial_shape LISTEN a with
+  | SvTcp p => if installed L TCP then Some p else None
+  | SvWs p => if installed L WS then Some p else None
+  | SvRefuse _ => None
+  end.
+Definition dial_target (L : limits) (e : ev) : option N :=
+  match e with
+  | CmdDialPeer p _ _ | HDialPeer p _ _ _ => Some p
+  | CmdDialAddr p t _ => shape_target L (canon p t)
+  | CmdDialShape a | HDialAddr a _ => shape_target L a
+  | _ => None
+  end.
+Definition is_handle_ev (e : ev) : bool := match e with HDialPeer _ _ _ _ | HDialAddr _ _ => true | _ => false end.
+
+Definition led_step (L : limits) (prev : option obs) (e : ev) (o : obs) (g : led) : led :=
+  let po := pobs prev in
   let ret_ok := o_ret o =? 1 in
-  let fails := match e with CmdDialPeer _ f | CmdDialAddr _ f | TrOpened _ f => f
-                          | TrEstablished _ _ _ f => f | _ => false end in
-  let shape_peer := match e with
-                    | CmdDialShape a => match dial_shape LISTEN a with SvTcp p | SvWs p => Some p | _ => None end
-                    | _ => None end in
-  let new_att := match e with
-                 | CmdDialPeer p _ | CmdDialAddr p _ =>
-                     if ret_ok then map (fun c => (c, p)) (calls_of 1 o ++ calls_of 2 o) else []
-                 | CmdDialShape _ =>
-                     match shape_peer with
-                     | Some p => if ret_ok then map (fun c => (c, p)) (calls_of 2 o) else []
-                     | None => [] end
-                 | _ => [] end in
+  let fails := match e with
+               | CmdDialPeer _ _ fl | HDialPeer _ _ fl _ => negb (is_nil fl)
+               | CmdDialAddr _ _ f | TrOpened _ _ f | TrEstablished _ _ _ _ f => f
+               | _ => false end in
+  let new_att := match dial_target L e with
+                 | Some p => if ret_ok then map (fun c => (c, p)) (dedup (calls_of 1 o ++ calls_of 2 o)) else []
+                 | None => [] end in
   let terms := map (fun x : N * (N * N) =>
                       match x with (1, (_, c)) => c | (3, (c, _)) => c | (4, (c, _)) => c | (_, (_, c)) => c end)
                    (filter (fun x : N * (N * N) => negb (fst x =? 2)) (o_mevs o)) in
-  let answered_open := match e with TrOpened c _ | TrOpenFailure c _ => [c] | _ => [] end in
-  let answered_neg := match e with TrDialFailure c _ => [c] | TrEstablished _ c false _ => [c] | _ => [] end in
+  let answered_open := match e with TrOpened c t _ | TrOpenFailure c t _ => [(c, t)] | _ => [] end in
+  let answered_neg := match e with TrDialFailure c _ _ => [c] | TrEstablished _ c _ false _ => [c] | _ => [] end in
   let answered_acc := match e with AcceptDone c _ => [c] | _ => [] end in
-  let cancelled := calls_of 4 o in
+  let cancelled := call_pairs 4 o in
+  (* a request the handle accepted with Ok: an attempt is started now, or one is in progress /
+     the peer is connected already; otherwise nothing will ever be reported for it *)
+  let silent := if is_handle_ev e && ret_ok && is_nil (calls_of 1 o ++ calls_of 2 o) then
+                  match dial_target L e with
+                  | Some p => if state_tag po p =? 0 then [p] else []
+                  | None => [0]
+                  end
+                else [] in
+  let excused := negb (strictly_under (max_out L) (N.of_nat (length (o_outs po)))) ||
+                 match e, dial_target L e with HDialAddr _ _, None => true | _, _ => false end in
   mkLed (new_att ++ attempts g) (terms ++ terminals g)
-        ((if fails then [] else calls_of 1 o) ++ removes (answered_open ++ cancelled) (owed_open g))
+        ((if fails then [] else call_pairs 1 o) ++ removes_pairs (answered_open ++ cancelled) (owed_open g))
         ((if fails then [] else calls_of 2 o ++ calls_of 3 o) ++ removes answered_neg (owed_neg g))
         ((if fails then [] else calls_of 5 o) ++ removes answered_acc (owed_acc g))
-        (match e with TrEstablished _ _ _ _ => cancelled | _ => [] end ++ superseded g)
+        (match e with TrEstablished _ _ _ _ _ => dedup (map fst cancelled) | _ => [] end ++ superseded g)
         (map (fun x : N * (N * N) => fst (snd x)) (filter (fun x : N * (N * N) => fst x =? 1) (o_mevs o)) ++ reported g)
         (match e with
-         | TrEstablished _ c false _ => if has_call 6 c o then [c] else []
+         | TrEstablished _ c _ false _ => if has_call 6 c o then [c] else []
          | _ => [] end ++ limit_rejected g)
         (match e with
          | AllocConn => if 101 <=? o_ret o then [o_ret o - 101] else []
          | _ => [] end ++
          match e with
-         | TrEstablished _ c true _ => removes [c] (allocated g)
-         | _ => allocated g end).
+         | TrEstablished _ c _ true _ => removes [c] (allocated g)
+         | _ => allocated g end)
+        ((if excused then silent else []) ++ silent_known g)
+        ((if excused then [] else silent) ++ silent_bad g)
+        (match e with TrOpenFailure c _ _ => [c] | _ => [] end ++ fail_log g).
 
 Definition count_n (x : N) (l : list N) : nat := length (filter (N.eqb x) l).
 
 (* feasible = only events the transport contract allows, all transport calls succeed *)
-Definition ev_feasible (e : ev) (g : led) (l : live_t) : bool :=
+Definition ev_feasible (L : limits) (e : ev) (g : led) (l : live_t) : bool :=
+  ev_live L e &&
   match e with
-  | CmdDialPeer _ f | CmdDialAddr _ f => negb f
-  | CmdAddAddr _ => true
-  | TrDialFailure c p => mem c (owed_neg g) && (match lookup c (attempts g) with Some q => q =? p | None => false end)
-  | TrOpened c f => negb f && mem c (owed_open g)
-  | TrOpenFailure c p => mem c (owed_open g) && (match lookup c (attempts g) with Some q => q =? p | None => false end)
-  | TrEstablished p c lst f =>
+  | CmdDialPeer _ _ fl | HDialPeer _ _ fl _ => is_nil fl
+  | CmdDialAddr _ _ f => negb f
+  | CmdAddAddr _ _ => true
+  | TrDialFailure c _ p => mem c (owed_neg g) && (match lookup c (attempts g) with Some q => q =? p | None => false end)
+  | TrOpened c t f => negb f && mem_pair (c, t) (owed_open g)
+  | TrOpenFailure c t p => mem_pair (c, t) (owed_open g) && (match lookup c (attempts g) with Some q => q =? p | None => false end)
+  | TrEstablished p c _ lst f =>
       negb f &&
       if lst then mem c (allocated g)
       else mem c (owed_neg g) && (match lookup c (attempts g) with Some q => q =? p | None => false end)
-  | TrPendingInbound _ => true
+  | TrPendingInbound _ _ => true
   | AcceptDone c ok => ok && mem c (owed_acc g)
   | Closed p c => (match lookup c l with Some (q, _) => q =? p | None => false end) && negb (mem c (owed_acc g))
   | AllocConn => true
   | CmdDialShape _ => true
+  | HDialAddr _ _ => true
   end.
 
 Definition quiescent (g : led) : bool :=
@@ -323,47 +410,117 @@ Definition c05_quiescent_ok (o : obs) (g : led) : bool :=
   forallb (fun s : N * (N * (N * N)) =>
              let t := fst (snd s) in (t =? 0) || (t =? 4) || (t =? 5)) (o_states o).
 
+(* the transports a dial(peer) may span, judged on the implementation's own observations:
+   po = before the step (address book, counted outbound connections), mask = the transport set of
+   the Opening state it created *)
+Definition mask_list (k : N) : list tr := inst_of_mask k.
+Definition choice_ok_obs (L : limits) (po : obs) (p : N) (mask : N) : bool :=
+  let '(nt, nw) := match lookup p (o_known po) with Some x => x | None => (0, 0) end in
+  let ks := (if 0 <? nt then [TCP] else []) ++ (if 0 <? nw then [WS] else []) in
+  let ts := mask_list mask in
+  negb (is_nil ts) && (mask <? 4) && subset ts ks &&
+  match max_out L with
+  | None => subset ks ts
+  | Some mx =>
+      let k := mx - N.of_nat (length (o_outs po)) in
+      (N.of_nat (length ts) <=? k) && (if nt + nw <=? k then subset ks ts else true)
+  end.
+
+Definition same_states (po o : obs) : bool :=
+  list_eqb (fun x y : N * (N * (N * N)) =>
+              (fst x =? fst y) && (fst (snd x) =? fst (snd y)) &&
+              (fst (snd (snd x)) =? fst (snd (snd y))) && (snd (snd (snd x)) =? snd (snd (snd y))))
+           (o_states po) (o_states o) &&
+  list_eqb (fun x y : N * N => (fst x =? fst y) && (snd x =? snd y)) (o_pending po) (o_pending o).
+
 Definition c05_step_ok (L : limits) (prev : option obs) (e : ev) (o : obs) (g' : led) : bool :=
+  let po := pobs prev in
   (* never two terminal outputs for one attempt *)
   forallb (fun c => Nat.leb (count_n c (terminals g')) 1) (terminals g') &&
   (* no panic / debug assertion on a feasible history *)
   (o_stuck o =? 0) &&
+  (* a failure is reported only for an attempt that has really ended: nothing is owed for it any more
+     (with several transports: not before the last of them has failed) *)
+  forallb (fun x : N * (N * N) =>
+             if (fst x =? 3) || (fst x =? 4)
+             then negb (existsb (fun y : N * N => fst y =? fst (snd x)) (owed_open g')) &&
+                  negb (mem (fst (snd x)) (owed_neg g'))
+             else true) (o_mevs o) &&
+  (* an OpenFailure report names every address that failed for the attempt: all transports' errors,
+     not only those of the last one *)
+  forallb (fun x : N * (N * N) =>
+             if fst x =? 4 then snd (snd x) =? N.of_nat (count_n (fst (snd x)) (fail_log g')) else true) (o_mevs o) &&
+  (* a request accepted by the handle is not dropped *)
+  is_nil (silent_known g') && is_nil (silent_bad g') &&
   (* a malformed / unsupported address is refused with an error: nothing is called, no peer state changes *)
-  match e, prev with
-  | CmdDialShape a, Some po =>
-      match dial_shape LISTEN a with
-      | SvTcp _ => true
-      | v => (match o_calls o with [] => true | _ => false end) &&
-             (match v with SvRefuse _ => negb (o_ret o =? 1) | _ => true end) &&
-             list_eqb (fun x y : N * (N * (N * N)) =>
-                         (fst x =? fst y) && (fst (snd x) =? fst (snd y)) &&
-                         (fst (snd (snd x)) =? fst (snd (snd y))) && (snd (snd (snd x)) =? snd (snd (snd y))))
-                      (o_states po) (o_states o) &&
-             list_eqb (fun x y : N * N => (fst x =? fst y) && (snd x =? snd y)) (o_pending po) (o_pending o)
+  match e with
+  | CmdDialShape a | HDialAddr a _ =>
+      match shape_target L a with
+      | Some _ => true
+      | None => is_nil (o_calls o) && same_states po o &&
+                match e, dial_shape LISTEN a with
+                | CmdDialShape _, _ => negb (o_ret o =? 1)
+                | _, _ => true
+                end
       end
-  | _, _ => true
+  | _ => true
   end &&
-  (* a dial of a disconnected, known peer below the limit is really attempted *)
-  match e, prev with
-  | CmdDialPeer p false, Some po =>
-      if (state_tag po p =? 0) && mem p (o_known po) && negb (p =? LOCAL) &&
+  (* a dial of a disconnected, known peer below the limit is really attempted: open is called on a
+     non-empty set of transports which is one the address book allows, and the peer waits for
+     exactly the transports that were asked *)
+  match e with
+  | CmdDialPeer p _ [] | HDialPeer p _ [] _ =>
+      let known := match lookup p (o_known po) with Some (a, b) => 0 <? a + b | None => false end in
+      if (state_tag po p =? 0) && known && negb (p =? LOCAL) &&
          strictly_under (max_out L) (N.of_nat (length (o_outs po)))
-      then (match calls_of 1 o with [_] => true | _ => false end) && (o_ret o =? 1)
+      then (o_ret o =? 1) &&
+           match lookup p (o_states o) with
+           | Some (3, (c, mask)) =>
+               choice_ok_obs L po p mask &&
+               (tr_mask (map snd (filter (fun y : N * N => fst y =? c) (call_pairs 1 o))) =? mask) &&
+               nlist_eqb (dedup (calls_of 1 o)) [c]
+           | _ => false
+           end
       else true
-  | _, _ => true
+  | _ => true
+  end &&
+  (* likewise a dial by address of a disconnected peer below the limit *)
+  match e with
+  | CmdDialAddr _ _ false | CmdDialShape _ | HDialAddr _ _ =>
+      match dial_target L e with
+      | Some p =>
+          if (state_tag po p =? 0) && strictly_under (max_out L) (N.of_nat (length (o_outs po)))
+          then (o_ret o =? 1) && (match calls_of 2 o with [_] => true | _ => false end)
+          else true
+      | None => true
+      end
+  | _ => true
   end.
 
-Fixpoint c05_ok (L : limits) (prev : option obs) (es : list ev) (tr : list obs)
+Fixpoint c05_ok (ex1 ex2 : bool) (L : limits) (prev : option obs) (es : list ev) (tr : list obs)
          (g : led) (l : live_t) (feas : bool) : bool :=
   match es, tr with
   | _, [] => true
   | e :: es', o :: tr' =>
-      let feas' := feas && ev_feasible e g l in
-      let g' := led_step e o g in
+      let feas' := feas && ev_feasible L e g l in
+      let g0 := led_step L prev e o g in
+      (* ex2: requests of known finding class 2 are not judged *)
+      let g' := if ex2 then mkLed (attempts g0) (terminals g0) (owed_open g0) (owed_neg g0) (owed_acc g0)
+                                  (superseded g0) (reported g0) (limit_rejected g0) (allocated g0) [] (silent_bad g0)
+                                  (fail_log g0)
+                else g0 in
       let l' := live_step e o l in
-      (if feas' then c05_step_ok L prev e o g' && (if quiescent g' then c05_quiescent_ok o g' else true)
+      (if feas' then
+         c05_step_ok L prev e o g' &&
+         (if quiescent g' then
+            (* ex1: attempts of known finding class 1 are not judged *)
+            c05_quiescent_ok o (if ex1
+                                then mkLed (filter (fun a : N * N => negb (mem (fst a) (limit_rejected g'))) (attempts g'))
+                                           (terminals g') [] [] [] (superseded g') (reported g') [] [] [] [] []
+                                else g')
+          else true)
        else true) &&
-      c05_ok L (Some o) es' tr' g' l' feas'
+      c05_ok ex1 ex2 L (Some o) es' tr' g' l' feas'
   | [], _ :: _ => false
   end.
 
@@ -387,38 +544,26 @@ Definition prop_ok_C05 (case trace : list N) : bool :=
   match decode_case case with
   | Some (L, es) =>
       match decode_trace (length es) trace with
-      | Some tr => c05_ok L None es tr led0 [] true
+      | Some tr => c05_ok false false L None es tr led0 [] true
       | None => false
       end
   | None => match trace with [0] => true | _ => false end
   end.
 
 (* Known-finding class 1 (C05): the only failing attempts are outbound connections that were
-   rejected by the connection limit at establishment time — they end without any report. *)
-Fixpoint c05_known_scan (L : limits) (prev : option obs) (es : list ev) (tr : list obs)
-         (g : led) (l : live_t) (feas : bool) : bool :=
-  match es, tr with
-  | _, [] => true
-  | e :: es', o :: tr' =>
-      let feas' := feas && ev_feasible e g l in
-      let g' := led_step e o g in
-      let l' := live_step e o l in
-      (if feas' then
-         c05_step_ok L prev e o g' &&
-         (if quiescent g' then
-            c05_quiescent_ok o (mkLed (filter (fun a : N * N => negb (mem (fst a) (limit_rejected g'))) (attempts g'))
-                                      (terminals g') [] [] [] (superseded g') (reported g') [] [])
-          else true)
-       else true) &&
-      c05_known_scan L (Some o) es' tr' g' l' feas'
-  | [], _ :: _ => false
-  end.
-
+   rejected by the connection limit at establishment time — they end without any report.
+   Known-finding class 2 (C05): the only failing requests are requests TransportManagerHandle
+   accepted with Ok(()) which the manager then refused because of the outbound connection limit or
+   (dial_address) an address check — the refusal is only logged. A trace that needs both
+   exclusions is reported as class 2. *)
 Definition known_class_C05 (case trace : list N) : N :=
   match decode_case case with
   | Some (L, es) =>
       match decode_trace (length es) trace with
-      | Some tr => if c05_known_scan L None es tr led0 [] true then 1 else 0
+      | Some tr =>
+          if c05_ok true false L None es tr led0 [] true then 1
+          else if c05_ok true true L None es tr led0 [] true then 2
+          else 0
       | None => 0
       end
   | None => 0
